@@ -10,6 +10,7 @@ structure St where
   /-- layers with their admission state (connections in flight / rate tokens left) -/
   sl : List SLayer
   script : Script
+  front : Caps
   ok : Bool
 
 /-- split at the first occurrence of `sep` -/
@@ -34,6 +35,7 @@ def parseOpt (idx : Nat) (l : LayerCfg) (o : String) : Option LayerCfg :=
       if o.startsWith "f" then some { l with fallback := .response n }
       else if o.startsWith "q" then some { l with maxReq := n }
       else if o.startsWith "r" then some { l with maxResp := n }
+      else if o.startsWith "p" then some { l with periodMs := n }
       else if o.startsWith "m" then some l
       else none
 
@@ -71,7 +73,11 @@ def parseScript (v : String) : Option Script :=
         (val.splitOn ",").foldl (fun a c => a.bind fun (s : Script) => c.toNat?.map fun n => { s with chunks := s.chunks ++ [chunkBytes s.chunks.length n] }) (some s)
       else if k == "flush" then val.toNat?.map fun n => { s with flushAfter := n }
       else if k == "hijack" then some { s with hijack := val == "1" }
-      else none) (some ⟨none, [], [], 0, false⟩)
+      else if k == "early" then some { s with earlyFlush := val == "1" }
+      else if k == "info" then
+        if val == "" then some s else
+        (val.splitOn ",").foldl (fun a c => a.bind fun (s : Script) => c.toNat?.map fun n => { s with info := s.info ++ [n] }) (some s)
+      else none) (some ⟨none, [], [], 0, false, [], false⟩)
 
 def hex8 (n : Nat) : String :=
   let d := String.ofList (Nat.toDigits 16 n)
@@ -91,7 +97,8 @@ def render (s : Script) (r : Result) : String :=
   let (fi, hi) := match r.seen with
     | some c => (tri c.flushIface, tri c.hijackIface)
     | none => ("-", "-")
-  s!"status={r.resp.status} invoked={r.invoked} body={r.resp.body.length}:{hex8 (adler32 r.resp.body)} hdr={canonHeaders r.resp.headers} flush={flush} hijack={hij} fi={fi} hi={hi}"
+  let info := if r.infos.isEmpty then "-" else ",".intercalate (r.infos.map toString)
+  s!"status={r.resp.status} invoked={r.invoked} body={r.resp.body.length}:{hex8 (adler32 r.resp.body)} hdr={canonHeaders r.resp.headers} flush={flush} hijack={hij} fi={fi} hi={hi} info={info}"
 
 /-- initial state as the harness sets it up: the layer at `iv` is driven to its limit (connlimit: max 1 with one parked request
 that also occupies one slot of every other connlimit, whose max is therefore 2; ratelimit: burst consumed); the other counting
@@ -108,16 +115,22 @@ def initState (stack : List LayerCfg) (iv : Option Nat) : List SLayer :=
     | _ => ({ l with tripped := trip }, 0)
 
 def init (f : List String) : St × String :=
-  let bad := (⟨[], ⟨none, [], [], 0, false⟩, false⟩, "bad-cfg")
-  match parseStack ((Driver.kv f "stack").getD "-"), parseScript ((Driver.kv f "h").getD "") with
-  | some stack, some sc =>
+  let bad := (⟨[], ⟨none, [], [], 0, false, [], false⟩, Caps.real, false⟩, "bad-cfg")
+  let front : Option Caps := match Driver.kv f "front" with
+    | none | some "real" => some Caps.real
+    | some "nohijack" => some Caps.noHijack
+    | some "noflush" => some Caps.noFlush
+    | some "plain" => some Caps.plain
+    | _ => none
+  match parseStack ((Driver.kv f "stack").getD "-"), parseScript ((Driver.kv f "h").getD ""), front with
+  | some stack, some sc, some fr =>
     match Driver.kv f "intervene" with
-    | none | some "none" => (⟨initState stack none, sc, true⟩, "ok")
+    | none | some "none" => (⟨initState stack none, sc, fr, true⟩, "ok")
     | some v =>
       match v.toNat? with
-      | some i => if i < stack.length then (⟨initState stack (some i), sc, true⟩, "ok") else bad
+      | some i => if i < stack.length then (⟨initState stack (some i), sc, fr, true⟩, "ok") else bad
       | none => bad
-  | _, _ => bad
+  | _, _, _ => bad
 
 def step (st : St) : List String → St × String
   | "req" :: rest =>
@@ -125,7 +138,7 @@ def step (st : St) : List String → St × String
     let req : Req := ⟨Driver.kvNat rest "body" 0⟩
     let abort := Driver.kv rest "abort" == some "1"
     let h : Req → Script := fun r => { st.script with headers := st.script.headers ++ [("X-Req-Len", toString r.bodyLen)] }
-    let (o, sl') := serveSt st.sl h req abort Caps.real
+    let (o, sl') := serveSt st.sl h req abort st.front
     ({ st with sl := sl' },
       match o with
       | .served r => render (h req) r
